@@ -100,7 +100,7 @@ type Analyzer struct {
 	progress bool
 	volatile map[types.Object]bool
 	assigned map[types.Object]bool // params assigned somewhere in the body
-	obs      map[string]*Ob // last outcome per site key (final pass wins; AND over disjunct visits in same pass)
+	obs      map[string]*Ob        // last outcome per site key (final pass wins; AND over disjunct visits in same pass)
 	obOrder  []string
 }
 
